@@ -144,6 +144,8 @@ class Interp:
                 return ("sym", "%s.%d" % (v[1], e))      # a field of an opaque value / of a named constant: opaque
             if v[0] == "tuple":
                 return v[1][e]
+            if v[0] == "closure" and isinstance(v[2], tuple) and e < len(v[2]):
+                return v[2][e]          # a captured value of a closure whose body was spliced in at its call
             raise Unsupported("field of %r" % (v,))
         if isinstance(e, dict) and "v" in e:
             if v[0] == "enum":
